@@ -180,7 +180,7 @@ def community_louvain(W, gamma=1, ci=None, B='modularity', seed=None):
 
     q0 = -np.inf
     # compute modularity
-    q = np.sum(B[np.tile(ci, (n, 1)) == np.tile(ci, (n, 1)).T]) / s
+    q = np.sum(B[np.tile(ci, (n, 1)) == np.tile(ci, (n, 1)).T])
 
     first_iteration = True
 
